@@ -172,15 +172,15 @@ pub fn extract(
 
 /// Like [`image::RgbaImage::save`], but reports all write errors.
 ///
-/// (`save` wraps the file in a `BufWriter` that it never flushes, so an error while writing the
-///  last chunk of data — for a small image, all of it — happens in a `Drop` impl and is ignored.)
+/// The image is encoded into memory first and then written in one go.  Handing the encoder a file
+/// (as `save` does, through a `BufWriter` it never flushes) loses errors: the buffered tail is written
+/// in a `Drop` impl, and the PNG encoder writes its final `IEND` chunk in its own `Drop` impl as well,
+/// where failures are silently ignored.
 fn save_image(image: image::RgbaImage, path: &Path) -> Result<(), image::ImageError> {
-    use std::io::Write;
-
     let format = image::ImageFormat::from_path(path)?;
-    let mut writer = std::io::BufWriter::new(std::fs::File::create(path)?);
-    image::DynamicImage::ImageRgba8(image).write_to(&mut writer, format)?;
-    writer.flush()?;
+    let mut encoded = vec![];
+    image::DynamicImage::ImageRgba8(image).write_to(&mut encoded, format)?;
+    std::fs::write(path, encoded)?;
     Ok(())
 }
 
